@@ -33,6 +33,10 @@ pub enum Trial {
     ExitContract { specs: Vec<ExecSpec>, kinds: Vec<String>, class: String, exit_code: Option<i32>, label: String },
     /// C16: invalid option combination: rejected with non-zero status before any output is written.
     Rejected { spec: ExecSpec, label: String },
+    /// Self-test: every execution is a pure function of its spec (run twice, compare everything).
+    Determinism { specs: Vec<ExecSpec>, label: String },
+    /// Self-test: the stubbed driver against the real binary (path in FPSIM_REAL_BIN).
+    Fidelity { spec: ExecSpec, label: String },
     /// C20: user-configured checks: exactly the expected messages, nothing else.
     Custom { spec: ExecSpec, expect: CustomExpect, exit_code: i32, label: String },
     /// C20: an absent and an all-default custom-checks file give identical results.
@@ -378,6 +382,8 @@ impl Trial {
             Trial::Truthful { spec, label } => crate::t_stream::run_truthful(ex, spec, label),
             Trial::Isolate { runs, by_fee, label } => crate::t_isolate::run_isolate(ex, runs, *by_fee, label),
             Trial::Alpide { runs, flags, label } => run_alpide(ex, runs, flags, label),
+            Trial::Determinism { specs, label } => crate::selftest::run_determinism(ex, specs, label),
+            Trial::Fidelity { spec, label } => crate::selftest::run_fidelity(ex, spec, label),
             Trial::Custom { spec, expect, exit_code, label } => run_custom(ex, spec, expect, *exit_code, label),
             Trial::SameOutputs { a, b, label } => {
                 let ra = ex.exec(a);
@@ -449,6 +455,8 @@ impl Trial {
             Trial::Alpide { runs, .. } => runs.iter_mut().map(|r| &mut r.spec).collect(),
             Trial::StatsRt { a, b, .. } => vec![a, b],
             Trial::Custom { spec, .. } => vec![spec],
+            Trial::Determinism { specs, .. } => specs.iter_mut().collect(),
+            Trial::Fidelity { spec, .. } => vec![spec],
             Trial::SameOutputs { a, b, .. } => vec![a, b],
             Trial::FsmWalk { .. } => vec![],
             Trial::ExcessPadding { spec, .. } => vec![spec],
@@ -549,6 +557,8 @@ impl Trial {
                 "runs": kinds, "exec": s(&specs[0])}),
             Trial::Rejected { spec, label } => json!({"trial": "rejected", "label": label, "exec": s(spec)}),
             Trial::Truthful { spec, label } => json!({"trial": "truthful", "label": label, "exec": s(spec)}),
+            Trial::Determinism { specs, label } => json!({"trial": "determinism", "label": label, "execs": specs.len()}),
+            Trial::Fidelity { spec, label } => json!({"trial": "fidelity", "label": label, "exec": s(spec)}),
             Trial::Custom { spec, expect, exit_code, label } => json!({
                 "trial": "custom-checks", "label": label, "any_errors_exit_code": exit_code,
                 "custom_checks_toml": spec.custom_checks_toml,
